@@ -167,8 +167,28 @@ claim("C06", "Lean 4 theorems about a hand-written executable model of the batch
       "signature strings, parser, output shapes/exception classes, element pairing, key shapes, key/draw distinctness and determinism are compared with the real "
       "code on every run (every event/condition shape of rank 0-2 in the thorough tier).",
       "Trusted: Lean 4.33 kernel, axioms propext/Classical.choice/Quot.sound (audited per run); Model/Vectorize.lean is hand-written and tied by correspondence only; "
-      "jr.split is abstract (assumed injective in the index; distinctness is measured). Keys are legacy uint32[2] keys. Zero-sized sample_shape/condition batch makes "
-      "sample raise TypeError (reproduced by the model; the shape theorems assume prod(key_shape) != 0).", "DESIGN.md §5 C06")
+      "jr.split is abstract (assumed injective in the index; distinctness is measured). Keys are legacy uint32[2] keys. Zero-sized sample shapes/condition batches are "
+      "covered (accepted since /repo 2d206ec; the previous max(1, prod) key_size rule is kept as a model variant that rejects them).", "DESIGN.md §5 C06")
 
-for _p in ["C02","C06","C14","C17"]:
+claim("C17", "Lean 4 theorems about a hand-written executable model of train/losses.py + Float correspondence with the real losses",
+      "For every distribution record, batch size, sample count, n_contrastive < batch and every realisation of the random choice: the model of "
+      "MaximumLikelihoodLoss is -(sum of log p(x_i|c_i))/batch; the model of ElboLoss is the mean of log q(x) - target(x) over the samples of the per-sample keys "
+      "and has the same value with and without stick-the-landing whenever sample_and_log_prob is consistent with sample + log_prob (C03); every row of "
+      "_get_contrastive_idxs has exactly n_contrastive pairwise distinct indices, none its own, all in range; the model of ContrastiveLoss equals the mean softmax "
+      "cross-entropy -log(e^pos/(e^pos + sum e^neg)), is never negative (logsumexp(.. ++ [pos]) >= pos), and raises exactly when batch <= n_contrastive (or the "
+      "condition batch differs). The real losses are run against the model on Normal, wrapped Transformed, coupling and masked-autoregressive flows "
+      "(conditional and unconditional) with the actual indices of _get_contrastive_idxs on every run.",
+      _TB + " Model/Losses.lean is a hand model tied by correspondence only. 'The STL gradient omits the score-function term' is NOT a Lean theorem "
+      "(stop_gradient has no value-level meaning): it is checked on the real code against the closed-form path-derivative gradient for Normal q and quadratic targets. "
+      "jr.choice(replace=False) is modelled as a prefix of an arbitrary permutation; PRNG is JAX's.", "DESIGN.md §5 C17")
+
+claim("C14", "Lean 4: kernel-evaluated staging discipline over a control-flow table regenerated from the source + a noninterference theorem for checked skeletons; real tracer compared by the harness",
+      "PARTIAL. Every method in scope (212 rows: all bijection/distribution/wrapper/loss/inverter methods) is abstracted to its control-flow skeleton, regenerated from /repo on every run; "
+      "Lean decides on the whole table that no Python-level branch, loop bound, assert or bool/int/float conversion depends on a traced value, that no global/nonlocal or mutation of self "
+      "occurs outside constructors and that no static-marked field holds an array; and proves noninterference for every checked skeleton: control path, static data and outcome are the same "
+      "for all argument stores with equal static data (the path recorded on tracers is the path of every concrete call; the method is a deterministic function of its arguments). "
+      "jit==eager, vmap==loop, repeatability, flatten/unflatten and leaf serialisation round trips are compared on real objects for every zoo object and method on every run.",
+      _TB + " NOT a proof about JAX's tracer, XLA, vmap batching rules or Equinox's serialiser: assumptions A1/A2 of the theorem state the interface; tracegen.py's expression abstraction is trusted and validated by the harness.", "DESIGN.md §5 C14")
+
+for _p in ["C02"]:
     NOT_YET[_p] = "not yet built in this round: theorems and correspondence under construction (see DESIGN.md §8); never claimed on the strength of the harness alone"
